@@ -29,7 +29,8 @@ def run(ctx):
     rng = ctx.rng
     cases = []
     for _ in range(n):
-        c = semrun.make_case(rng, opts={'lang': rng.choice(['', 'de', 'en']), 'pack': '*', 'unkn': True})
+        c = semrun.make_case(rng, profile={'inspect': True} if rng.random() < 0.5 else None,
+                             opts={'lang': rng.choice(['', 'de', 'en']), 'pack': '*', 'unkn': True})
         cases.append(c)
     ctx.stats['_rule'] = ('well-formed G-doc documents mixing declared and undeclared names in text, maths, arguments, footnotes, comments, '
                           'skipped regions, uses before definitions; run with --unkn; expected list = undeclared names in order of first text-mode '
